@@ -196,6 +196,7 @@ func (d *c19lDrain) String() string {
 }
 
 func c19lRun(t *testing.T, tape *simrt.Tape, o simwork.Opts) *simwork.Result {
+	simrt.Bump() // progress mark for the worker watchdog (this scenario does not use the seeded scheduler)
 	res := &simwork.Result{Faults: map[string]int{}, Probes: map[string]int{}}
 	c := c19lGen(tape)
 	var observed []c19lObs
